@@ -28,6 +28,7 @@ EDIT_OPS = (
     "holder_roundtrip",
     "full_update",
     "snapshot",
+    "extract",
     "sampler",
     "fork",
 )
@@ -35,8 +36,8 @@ SAMPLER_KINDS = ("pg", "subtree", "dp", "prg", "burnin")
 
 
 @st.composite
-def st_program(draw, max_points=6, max_edits=30, samplers=True, forks=False):
-    n = draw(st.integers(1, max_points))
+def st_program(draw, max_points=6, max_edits=30, samplers=True, forks=False, sampler_heavy=False):
+    n = draw(st.integers(3, max_points + 1)) if sampler_heavy else draw(st.integers(1, max_points))
     ops = []
     sel = st.integers(0, 1 << 16)
     n_place = n
@@ -47,6 +48,10 @@ def st_program(draw, max_points=6, max_edits=30, samplers=True, forks=False):
         if draw(st.integers(0, 3)) == 0:
             ops.append([draw(st.sampled_from(["copy", "dict_roundtrip", "holder_roundtrip", "snapshot", "pickle_roundtrip"] + (["fork"] if forks else []))), draw(sel), 0, 0])
     m = draw(st.integers(0, max_edits))
+    if sampler_heavy:
+        # mostly real sampler invocations (data-point, prune-regraft, PG, subtree, burn-in) on a larger tree
+        edits = ["sampler", "sampler", "sampler", "relabel", "move_point", "prune_regraft"]
+        m = draw(st.integers(4, max(5, max_edits // 2)))
     for _ in range(m):
         ops.append([draw(st.sampled_from(edits)), draw(sel), draw(sel), draw(sel)])
     return dict(
@@ -557,6 +562,26 @@ class Machine:
 
         snap = self.tree.to_dict()
         self._ghost("trace-entry", Tree.from_dict(snap), snap)
+        return True
+
+    def op_extract(self, a, b, c):
+        """cut a subtree out as its own tree (get_subtree) and keep it while the host goes on being edited"""
+        cl = self.model.clones()
+        if not cl:
+            return False
+        sub = cl[a % len(cl)]
+        keep = [sub] + self.model.descendants(sub)
+        gm = Model()
+        ids = {}
+        for x in keep:
+            ids[x] = gm.new(self.model.blocks[x])
+        for x in keep:
+            gm.parent[ids[x]] = None if x == sub else ids[self.model.parent[x]]
+        extracted = self.tree.get_subtree(name_of(self.tree, self.model, sub))
+        self.ghosts.append(("subtree-extracted-with-get_subtree", extracted, None, gm))
+        if len(self.ghosts) > 3:
+            self.ghosts.pop(0)
+        self.classes.add("ghost-restores")
         return True
 
     def _ghost(self, label, tree, snap):
